@@ -173,6 +173,36 @@ def variations(ctx, rr):
     ep = P.method('Traph', 'expand_prefix')
     if lv not in P.calls[ep]:
         raise AnalysisError('Traph.expand_prefix no longer calls helpers.lru_variations')
+    # the expansion is the expansion of the given prefix itself: encoded, otherwise untouched
+    from .generic_rules import _is_encode_call
+    from ..dataflow import reaching_defs as _rdefs
+    rd = _rdefs(ep, ctx.cfg(ep))
+    for c in P.own(ep, ast.Call):
+        if lv not in P.targets(c) or not c.args:
+            continue
+        arg = c.args[0]
+        vals = []
+        if isinstance(arg, ast.Name):
+            st = P.stmt_of(c)
+            nid = [n.id for n in ctx.cfg(ep).nodes if n.ast is st]
+            for d in (rd.get(nid[0], {}).get(arg.id, ()) if nid else ()):
+                vals.append(d.value if isinstance(d, ast.Assign) else d)
+        else:
+            vals = [arg]
+        okv = bool(vals) and all(_is_encode_call(v) and len(v.args) == 1 and isinstance(v.args[0], ast.Name) and v.args[0].id in ep.params for v in vals if v != 'param') \
+            and 'param' not in vals
+        rr.ob(ctx.where(ep, c), 'expand_prefix expands exactly the encoded prefix it was given', ok=okv)
+        if not okv:
+            rr.fail(ctx.finding('R-VARIATIONS', ep, c, 'Traph.expand_prefix alters the prefix before expanding it (%s): the variations of a different LRU are returned and attached, '
+                                'and the given prefix is no longer listed first' % ', '.join(ast.unparse(v)[:50] if v != 'param' else 'raw parameter' for v in vals),
+                                stmt='expand_prefix argument'))
+    # every stem is split off: a bounded split glues the stems beyond the bound (host stems included) into one
+    for u in (hv, lv):
+        for c in P.own(u, ast.Call):
+            if isinstance(c.func, ast.Attribute) and c.func.attr in ('split', 'rsplit') and (len(c.args) > 1 or any(k.arg == 'maxsplit' for k in c.keywords)):
+                rr.ob(ctx.where(u, c), 'stems are split without a bound', ok=False)
+                rr.fail(ctx.finding('R-VARIATIONS', u, c, '`%s` splits only a bounded number of stems: for an LRU with more stems before its last host stem, the remainder is one '
+                                    'glued stem, the host section text no longer matches and the www variation is computed for a wrong host list' % ast.unparse(c)[:50]))
     # ---- (no-raise) list subscripts and pops
     nsites = [0]
     for u in (hv, lv):
